@@ -289,19 +289,23 @@ def updateAll (s : St) (scs : List Sc) : St × List Event :=
     ({ acc.1 with scAddrs := insert acc.1.scAddrs sc acc.1.addrs }, acc.2 ++ [.upd sc acc.1.addrs, .connect sc]))
     (s, [])
 
+/-- `if gb.cfg == nil { initializeConfig }` (enforceMinSize included) -/
+def ccsConfigure (s : St) : St × List Event :=
+  match s.cfg with
+  | some _ => (s, [])
+  | none =>
+    let c := initialCfg s.cfgIn
+    enforceMinSize { s with cfg := some c } c.min c.min
+
+/-- the connections that are told the new address list: replacements first, then (unless the pool
+    is empty) the pool; canonical order (the harness sorts consecutive upd/connect pairs by id) -/
+def ccsTargets (s : St) : List Sc :=
+  if s.scRefs.isEmpty then sortedKeys s.refreshingMap
+  else (sortedKeys s.refreshingMap ++ sortedKeys s.scRefs).mergeSort (· ≤ ·)
+
 def opCcs (s : St) (ver : Nat) : St × List Event :=
-  let s := { s with addrs := ver }
-  let (s, ev0) :=
-    match s.cfg with
-    | some _ => (s, [])
-    | none =>
-      let c := initialCfg s.cfgIn
-      enforceMinSize { s with cfg := some c } c.min c.min
-  -- canonical order: the harness sorts consecutive upd/connect pairs by connection id
-  let targets :=
-    if s.scRefs.isEmpty then sortedKeys s.refreshingMap
-    else (sortedKeys s.refreshingMap ++ sortedKeys s.scRefs).mergeSort (· ≤ ·)
-  let (s, ev1) := updateAll s targets
+  let (s, ev0) := ccsConfigure { s with addrs := ver }
+  let (s, ev1) := updateAll s (ccsTargets s)
   if s.scRefs.isEmpty then
     let (s, _, ev2) := addSubConn s
     (s, ev0 ++ ev1 ++ ev2 ++ [.res "ok"])
@@ -312,15 +316,17 @@ def opCcs (s : St) (ver : Nat) : St × List Event :=
 def dec64 (n : Nat) : Nat := (n + 2^64 - 1) % 2^64
 def inc64 (n : Nat) : Nat := (n + 1) % 2^64
 
+/-- one counter of the connectivityStateEvaluator -/
+def updCounter (s : St) (st : CState) (f : Nat → Nat) : St :=
+  match st with
+  | .ready => { s with nReady := f s.nReady }
+  | .connecting => { s with nConn := f s.nConn }
+  | .tf => { s with nTF := f s.nTF }
+  | _ => s
+
 /-- connectivityStateEvaluator.recordTransition (counters are uint64) -/
 def recordTransition (s : St) (old new : CState) : St :=
-  let upd (s : St) (st : CState) (f : Nat → Nat) : St :=
-    match st with
-    | .ready => { s with nReady := f s.nReady }
-    | .connecting => { s with nConn := f s.nConn }
-    | .tf => { s with nTF := f s.nTF }
-    | _ => s
-  let s := upd (upd s old dec64) new inc64
+  let s := updCounter (updCounter s old dec64) new inc64
   { s with aggr := if s.nReady > 0 then .ready else if s.nConn > 0 then .connecting else .tf }
 
 def readySlots (s : St) : List Slot :=
@@ -352,35 +358,48 @@ def swap (s : St) (sc : Sc) (slot : Slot) : St × List Event :=
     ({ s with affinity := repoint s.affinity oldSc sc, fallback := repoint s.fallback oldSc sc,
               removed := s.removed ++ [oldSc] }, [.remove oldSc])
 
+/-- the replacement-connection prologue of UpdateSubConnState: `none` = report ignored -/
+def scsPrologue (s : St) (sc : Sc) (st : CState) : Option (St × List Event) :=
+  match lookup s.refreshingMap sc with
+  | some slot => if st != .ready then none else some (swap s sc slot)
+  | none => some (s, [])
+
+/-- record the new state of a pool connection: tables, Idle → Connect, Shutdown → forget -/
+def recordState (s : St) (sc : Sc) (st : CState) : St × List Event :=
+  let s := { s with scStates := insert s.scStates sc st }
+  match st with
+  | .idle => (s, [.connect sc])
+  | .shutdown => ({ s with scRefs := erase s.scRefs sc, scStates := erase s.scStates sc }, [])
+  | _ => (s, [])
+
+/-- the two fallback clean-ups -/
+def cleanFallback (s : St) (sc : Sc) (oldS st : CState) : St :=
+  let s := if oldS == .ready && st != .ready then
+             { s with fallback := s.fallback.filter fun p => !(p.2 == sc) } else s
+  if oldS != .ready && st == .ready then
+    { s with fallback := s.fallback.filter fun p => !(lookup s.affinity p.1 == some sc) } else s
+
+/-- regenerate and publish when READY-ness of the connection or TF-ness of the aggregate changed -/
+def maybePublish (s : St) (oldS st oldAggr : CState) (order : List Slot) : St × List Event :=
+  if ((st == .ready) != (oldS == .ready)) || ((s.aggr == .tf) != (oldAggr == .tf)) then
+    let s := regeneratePicker s order
+    let idx := s.published.length
+    ({ s with published := s.published ++ [(s.aggr, s.picker)] }, [.state s.aggr idx s.picker])
+  else (s, [])
+
 def opScs (s : St) (sc : Sc) (st : CState) (order : List Slot) : St × List Event :=
-  let pre : Option (St × List Event) :=
-    match lookup s.refreshingMap sc with
-    | some slot => if st != .ready then none else some (swap s sc slot)
-    | none => some (s, [])
-  match pre with
+  match scsPrologue s sc st with
   | none => (s, [.res "ok"])                            -- replacement not ready yet: ignored
   | some (s, ev0) =>
     match stateOf s sc with
     | none => (s, ev0 ++ [.res "ok"])                   -- unknown / removed connection
     | some oldS =>
-      let s := { s with scStates := insert s.scStates sc st }
-      let (s, ev1) : St × List Event :=
-        match st with
-        | .idle => (s, [.connect sc])
-        | .shutdown => ({ s with scRefs := erase s.scRefs sc, scStates := erase s.scStates sc }, [])
-        | _ => (s, [])
-      let s := if oldS == .ready && st != .ready then
-                 { s with fallback := s.fallback.filter fun p => !(p.2 == sc) } else s
-      let s := if oldS != .ready && st == .ready then
-                 { s with fallback := s.fallback.filter fun p => !(lookup s.affinity p.1 == some sc) } else s
+      let (s, ev1) := recordState s sc st
+      let s := cleanFallback s sc oldS st
       let oldAggr := s.aggr
       let s := recordTransition s oldS st
-      if ((st == .ready) != (oldS == .ready)) || ((s.aggr == .tf) != (oldAggr == .tf)) then
-        let s := regeneratePicker s order
-        let idx := s.published.length
-        ({ s with published := s.published ++ [(s.aggr, s.picker)] },
-          ev0 ++ ev1 ++ [.state s.aggr idx s.picker, .res "ok"])
-      else (s, ev0 ++ ev1 ++ [.res "ok"])
+      let (s, ev2) := maybePublish s oldS st oldAggr order
+      (s, ev0 ++ ev1 ++ ev2 ++ [.res "ok"])
 
 /-! ### Pick -/
 
@@ -435,8 +454,54 @@ def place (s : St) (call : Nat) (slot : Slot) (cmd : Cmd) (loc : Loc) (key : Str
     ({ s with calls := s.calls ++ [{ id := call, slot := slot, cmd := cmd, loc := loc, boundKey := key,
                                       ctx := ctx, dl := dl, started := s.now }] }, some r.subConn)
 
+def callIdUsed (s : St) (call : Nat) : Bool :=
+  s.calls.any (fun c => c.id == call) || s.waiters.any (fun w => w.id == call)
+
+/-- method table lookup + affinity key of a BOUND / UNBIND call: (cmd, locator, key or error) -/
+def resolveCall (c : Cfg) (m : String) (ctx : CtxKind) (req : Req) : Cmd × Loc × Option String :=
+  match methodCfg c m with
+  | some (cmd, loc) =>
+    if ctx != .none && (cmd == .bound || cmd == .unbind) then
+      match extract loc req with
+      | none => (cmd, loc, none)
+      | some [] => (cmd, loc, none)
+      | some (k :: _) => (cmd, loc, some k)
+    else (cmd, loc, some "")
+  | none => (.bound, .key, some "")
+
+/-- getSubConnRef: keyed lookup first, otherwise (or for an unknown key) the least-loaded path -/
+def chooseSlot (s : St) (c : Cfg) (l : List Slot) (key : String) : St × Option Slot × List Event :=
+  if key != "" then
+    match getReadySubConnRef s c key with
+    | (s, r, true) => (s, r, [])
+    | (s, _, false) => getLeastBusy s c l
+  else getLeastBusy s c l
+
+/-- increment the stream count and hand the connection to gRPC, or report "no SubConn available" -/
+def finishPick (s : St) (r : Option Slot) (ev : List Event) (call : Nat) (cmd : Cmd) (loc : Loc)
+    (key : String) (ctx : CtxKind) (dl : Option Int) : St × List Event :=
+  match r with
+  | none => (s, ev ++ [.res "nosc"])
+  | some slot =>
+    match place s call slot cmd loc key ctx dl with
+    | (s, some sc) => (s, ev ++ [.placed sc])
+    | (s, none) => (s, ev ++ [.res "PANIC"])
+
+/-- getSubConnRoundRobin + streamsIncr -/
+def pickRR (s : St) (call : Nat) (loc : Loc) (ctx : CtxKind) (dl : Option Int) : St × List Event :=
+  if s.refs.isEmpty then (s, [.res "PANIC"])            -- unreachable (modulus 0)
+  else
+    let rr := (s.rr + 1) % 2^32
+    let slot := rr % s.refs.length
+    let s := { s with rr := rr }
+    if slotReady s slot then finishPick s (some slot) [] call .bind loc "" ctx dl
+    else ({ s with waiters := s.waiters ++ [{ id := call, slot := slot, loc := loc, ctx := ctx, dl := dl }] },
+          [.res "waiting"])
+
 def opPick (s : St) (call pn : Nat) (m : String) (ctx : CtxKind) (dl : Option Int) (req : Req) :
     St × List Event :=
+  if callIdUsed s call then (s, [.res "bad-op"])       -- the harness numbers calls uniquely
+  else
   match s.published[pn]? with
   | none => (s, [.res "bad-op"])
   | some (_, .errTF) => (s, [.res "tf"])
@@ -447,50 +512,13 @@ def opPick (s : St) (call pn : Nat) (m : String) (ctx : CtxKind) (dl : Option In
     | some c =>
       if l.isEmpty then (s, [.res "nosc"])
       else
-        let mc := methodCfg c m
-        let cmd : Cmd := match mc with | some (cmd, _) => cmd | none => .bound
-        let loc : Loc := match mc with | some (_, loc) => loc | none => .key
-        let hasCtx := ctx != .none
-        -- the affinity key of a BOUND / UNBIND call
-        let keyR : Option String :=
-          match mc with
-          | some (cmd, loc) =>
-            if hasCtx && (cmd == .bound || cmd == .unbind) then
-              match extract loc req with
-              | none => none
-              | some [] => none
-              | some (k :: _) => some k
-            else some ""
-          | none => some ""
-        match keyR with
-        | none => (s, [.res "keyerr"])
-        | some key =>
-          if cmd == .bind && c.rr then
-            -- getSubConnRoundRobin
-            if s.refs.isEmpty then (s, [.res "PANIC"])  -- unreachable (modulus 0)
-            else
-              let rr := (s.rr + 1) % 2^32
-              let slot := rr % s.refs.length
-              let s := { s with rr := rr }
-              if slotReady s slot then
-                match place s call slot cmd loc key ctx dl with
-                | (s, some sc) => (s, [.placed sc])
-                | (s, none) => (s, [.res "PANIC"])
-              else ({ s with waiters := s.waiters ++ [{ id := call, slot := slot, loc := loc, ctx := ctx, dl := dl }] },
-                    [.res "waiting"])
+        match resolveCall c m ctx req with
+        | (_, _, none) => (s, [.res "keyerr"])
+        | (cmd, loc, some key) =>
+          if cmd == .bind && c.rr then pickRR s call loc ctx dl
           else
-            let (s, r, ev) : St × Option Slot × List Event :=
-              if key != "" then
-                match getReadySubConnRef s c key with
-                | (s, r, true) => (s, r, [])
-                | (s, _, false) => getLeastBusy s c l
-              else getLeastBusy s c l
-            match r with
-            | none => (s, ev ++ [.res "nosc"])
-            | some slot =>
-              match place s call slot cmd loc key ctx dl with
-              | (s, some sc) => (s, ev ++ [.placed sc])
-              | (s, none) => (s, ev ++ [.res "PANIC"])
+            let (s, r, ev) := chooseSlot s c l key
+            finishPick s r ev call cmd loc key ctx dl
 
 /-! ### completion callback -/
 
@@ -519,24 +547,50 @@ def detectUnresponsive (s : St) (c : Cfg) (call : Call) (err : ErrKind) : St × 
         if r.deCalls + 1 ≥ c.uc && r.lastResp < s.now - windowNs c r.refreshCnt then refresh s call.slot
         else (s, [])
 
-/-- bindSubConn -/
-def bindSubConn (s : St) (key : String) (sc : Sc) : St :=
-  let s := match lookup s.affinity key with
-    | some _ => s
-    | none => { s with affinity := s.affinity ++ [(key, sc)] }
+/-- `if scRef := gb.scRefs[sc]; scRef != nil { scRef.affinityCnt += d }` -/
+def bumpAffinity (s : St) (sc : Sc) (d : Int) : St :=
   match lookup s.scRefs sc with
-  | some slot => modRef s slot fun r => { r with affinityCnt := r.affinityCnt + 1 }
+  | some slot => modRef s slot fun r => { r with affinityCnt := r.affinityCnt + d }
   | none => s
+
+/-- `if _, ok := gb.affinityMap[key]; !ok { gb.affinityMap[key] = sc }` -/
+def addBinding (s : St) (key : String) (sc : Sc) : St :=
+  match lookup s.affinity key with
+  | some _ => s
+  | none => { s with affinity := s.affinity ++ [(key, sc)] }
+
+/-- bindSubConn -/
+def bindSubConn (s : St) (key : String) (sc : Sc) : St := bumpAffinity (addBinding s key sc) sc 1
+
+def dropBinding (s : St) (key : String) : St := { s with affinity := erase s.affinity key }
 
 /-- unbindSubConn -/
 def unbindSubConn (s : St) (key : String) : St :=
   match lookup s.affinity key with
   | none => s
-  | some sc =>
-    let s := match lookup s.scRefs sc with
-      | some slot => modRef s slot fun r => { r with affinityCnt := r.affinityCnt - 1 }
+  | some sc => dropBinding (bumpAffinity s sc (-1)) key
+
+/-- the BIND / UNBIND post-processing of a successful call -/
+def applyBindings (s : St) (call : Call) (reply : Msg) : St :=
+  match call.cmd with
+  | .bind =>
+    if call.ctx == .none then s
+    else
+      let replyObj : Req := if call.ctx == .gcp then .msg reply else .bad
+      match extract call.loc replyObj with
       | none => s
-    { s with affinity := erase s.affinity key }
+      | some keys =>
+        -- `scRef.subConn` is read when the callback runs
+        match getRef s call.slot with
+        | none => s
+        | some r => keys.foldl (fun s k => bindSubConn s k r.subConn) s
+  | .unbind => unbindSubConn s call.boundKey
+  | .bound => s
+
+/-- `scRef.streamsDecr()` and forgetting the call -/
+def completeCall (s : St) (call : Call) : St :=
+  modRef { s with calls := s.calls.filter fun c => c.id != call.id } call.slot
+    fun r => { r with streamsCnt := r.streamsCnt - 1 }
 
 def opDone (s : St) (callId : Nat) (err : ErrKind) (reply : Msg) : St × List Event :=
   match s.calls.find? (fun c => c.id == callId) with
@@ -545,25 +599,10 @@ def opDone (s : St) (callId : Nat) (err : ErrKind) (reply : Msg) : St × List Ev
     match s.cfg with
     | none => (s, [.res "PANIC"])
     | some c =>
-      let s := { s with calls := s.calls.filter fun c => c.id != callId }
-      let s := modRef s call.slot fun r => { r with streamsCnt := r.streamsCnt - 1 }
+      let s := completeCall s call
       let (s, ev) := detectUnresponsive s c call err
       if err != .nil then (s, ev ++ [.res "ok"])
-      else
-        match call.cmd with
-        | .bind =>
-          if call.ctx == .none then (s, ev ++ [.res "ok"])
-          else
-            let replyObj : Req := if call.ctx == .gcp then .msg reply else .bad
-            match extract call.loc replyObj with
-            | none => (s, ev ++ [.res "ok"])
-            | some keys =>
-              -- `scRef.subConn` is read when the callback runs
-              match getRef s call.slot with
-              | none => (s, ev ++ [.res "ok"])
-              | some r => (keys.foldl (fun s k => bindSubConn s k r.subConn) s, ev ++ [.res "ok"])
-        | .unbind => (unbindSubConn s call.boundKey, ev ++ [.res "ok"])
-        | .bound => (s, ev ++ [.res "ok"])
+      else (applyBindings s call reply, ev ++ [.res "ok"])
 
 /-! ### waiting round-robin picks -/
 
@@ -574,9 +613,9 @@ def placeWaiter (s : St) (w : Waiter) : St × Option Sc :=
 def wakeWaiters (s : St) : St × List Event :=
   s.waiters.foldl (fun (acc : St × List Event) w =>
     if slotReady acc.1 w.slot then
-      match placeWaiter acc.1 w with
-      | (s, some sc) => ({ s with waiters := s.waiters.filter fun x => x.id != w.id }, acc.2 ++ [.woke w.id sc])
-      | (s, none) => (s, acc.2)
+      match placeWaiter { acc.1 with waiters := acc.1.waiters.filter fun x => x.id != w.id } w with
+      | (s, some sc) => (s, acc.2 ++ [.woke w.id sc])
+      | (_, none) => acc
     else acc) (s, [])
 
 def opCtxDone (s : St) (callId : Nat) : St × List Event :=
